@@ -46,8 +46,9 @@ STUBS = ["OSError injection proxies on builtins.open, io.open, os.* (cfdpsim.aud
 FILES = ["a", "b", "d1/a", "d1/b", "d2/a", "d1/n/a", "c", "d"]
 DIRS = ["d1", "d2", "d1/n"]
 ODD = ["nodir/a", "a/x", "d1/n/q/z"]
-PAYLOADS = [b"hello", b"", b"X", b"123456789", bytes(range(64))]
-OFFS = [None, 0, 1, 3, 8, 20]
+# (scale: a payload longer than one 4 KiB block, offsets that leave holes of more than 4 KiB / 64 KiB behind the end of the file)
+PAYLOADS = [b"hello", b"", b"X", b"123456789", bytes(range(64)), bytes((i * 7 + 3) & 0xFF for i in range(6001))]
+OFFS = [None, 0, 1, 3, 8, 20, 5000, 70001]
 SUCCESS = {F.SUCCESS, F.DELETE_SUCCESS, F.RENAME_SUCCESS, F.REPLACE_SUCCESS, F.CREATE_DIR_SUCCESS, F.REMOVE_DIR_SUCCESS}
 FAMILY = {"create_file": 0x0, "delete_file": 0x1, "rename_file": 0x2, "replace_file": 0x4, "create_directory": 0x5, "remove_directory": 0x6}
 
@@ -155,8 +156,8 @@ def _run(t):
                 args = [Path(p1), data, off]
                 desc += f",len={len(data)},off={off}"
             if name == "read_data":
-                off = [None, 0, 2, 50][t.choose(4, "read off")]
-                rl = [None, 0, 1, 4, 100][t.choose(5, "read len")]
+                off = [None, 0, 2, 50, 4097, 70000][t.choose(6, "read off")]
+                rl = [None, 0, 1, 4, 100, 5000, 9000][t.choose(7, "read len")]
                 args = [Path(p1), off, rl]
                 desc += f",off={off},len={rl}"
             desc += ")"
